@@ -84,10 +84,16 @@ where
 fn do_work<Op: Operator>(mut block: Block<Op>, coord: Coord) {
     let mut catch_panic = CatchPanic::new(|| {
         error!("worker {} crashed!", coord);
+        #[cfg(feature = "verif")]
+        crate::verif::worker_event(coord, "crashed");
     });
+    #[cfg(feature = "verif")]
+    crate::verif::worker_event(coord, "started");
     while !matches!(block.operators.next(), StreamElement::Terminate) {
         // nothing to do
     }
     catch_panic.defuse();
+    #[cfg(feature = "verif")]
+    crate::verif::worker_event(coord, "completed");
     info!("worker {} completed", coord);
 }
